@@ -484,7 +484,10 @@ def _check_sources(rep: Report, m) -> None:
                 if not res or res[0] != "class":
                     continue
                 n_sites += 1
-                kws = {k.arg for k in node.keywords}
+                from ..loader import call_args
+
+                init_f = prog.lookup_method(res[1], "__init__")
+                kws = set(call_args(node, init_f.param_names[1:] if init_f else []))
                 has_row = "row" in kws or any(k.arg is None for k in node.keywords)
                 rep.check(has_row, rb, mod.name, _qual(node), f"{_qual(node)}: {node.func.id}(...) passes row=", f"{short(node, 100)} constructs a transaction without row=: its id falls back to id(self), a memory address that differs between runs and orders/keys every table built from it", loc(node))
     if n_sites < 2:
